@@ -80,7 +80,7 @@ package absnfs
 
 //@ func AbsfsNFS.Close
 //@ prop C17
-//@ requires n != nil && (n.fileMap != nil ==> fmInv(n.fileMap) && issuedInv(n.fileMap)) && n.exportServer == nil && n.workerPool == nil
+//@ requires n != nil && (n.fileMap != nil ==> fmInv(n.fileMap) && issuedInv(n.fileMap)) && n.exportServer == nil
 //@ ensures [handles-released] n.fileMap != nil ==> len(n.fileMap.handles) == 0
 //@ ensures [attr-cache-empty] n.attrCache != nil ==> len(n.attrCache.cache) == 0
 //@ ensures [dir-cache-empty] n.dirCache != nil ==> len(n.dirCache.entries) == 0
@@ -105,3 +105,17 @@ package absnfs
 //@ also Server.cleanupIdleConnections
 //@ loop 1 backedge [idle-connections-are-collected] after state : real(idleTimeout) / 1000000000.0 < tsec(now) - tsec(state.lastActivity) ==> len(idleConns) > 0 && idleConns[len(idleConns) - 1] == conn
 //@ callassert Server.unregisterConnection : [every-collected-connection-is-unregistered] arg1 == idleConns[rangeindex] && connClosed[valof(idleConns[rangeindex])]
+
+// ---- Close empties the handle table and the caches only once no pool task can run any more (added after a seeded
+// reordering - tables emptied before the worker pool was stopped, so that a task still running could put a handle
+// or a cache entry back - was not detected). WorkerPool.Stop is outside the verified region (goroutines and
+// channels, C20): its contract is assumed - it returns after every running task has finished.
+//@ ghost poolStopped [1]bool
+//@ func WorkerPool.Stop
+//@ assumed
+//@ modifies fields(WorkerPool), poolStopped, locks, extstate
+//@ ensures poolStopped[p] && forall(o, mathint, o != p ==> poolStopped[o] == old(poolStopped[o]))
+//@ also AbsfsNFS.Close
+//@ callassert FileHandleMap.ReleaseAll : [no-task-can-run-any-more] {C17} n.workerPool == nil || poolStopped[n.workerPool]
+//@ callassert AttrCache.Clear : [no-task-can-run-any-more] {C17} n.workerPool == nil || poolStopped[n.workerPool]
+//@ callassert DirCache.Clear : [no-task-can-run-any-more] {C17} n.workerPool == nil || poolStopped[n.workerPool]
